@@ -409,6 +409,7 @@ def history_cases(g, count, length):
         g.add("USER %d" % users[2])
         alive_users = users[1:]
         topics = []           # live topic indices
+        owner = {}            # topic -> the user that created it (its owner)
         wedged = set()
         files = []            # uploads made in this history (may have been collected)
         pubs = {}             # publish index -> topic   (global publish counter in g)
@@ -425,7 +426,11 @@ def history_cases(g, count, length):
                 att = "-"
                 if rng.random() < 0.5:
                     att = g.tpl(rng.choice(files))
-                g.add("TOPIC %d 1 %s" % (g.ntopic, att), kind="TOPIC", t=g.ntopic)
+                # topics owned by a user that may be deleted later: its deletion removes the topic,
+                # its messages and their links
+                o = rng.choice([1, 1] + alive_users)
+                owner[g.ntopic] = o
+                g.add("TOPIC %d %d %s" % (g.ntopic, o, att), kind="TOPIC", t=g.ntopic)
                 topics.append(g.ntopic)
             elif r < 0.52 and [t for t in topics if t not in wedged]:
                 t = rng.choice([t for t in topics if t not in wedged])
@@ -439,24 +444,25 @@ def history_cases(g, count, length):
                         tp.append(g.bad_tpl())
                     else:
                         tp.append("h%s+x" % hx(SERVE))       # well-formed id that was never issued
-                g.add("PUB 1 %d %s" % (t, ",".join(tp) or "-"), kind="PUB", t=t)
+                g.add("PUB %d %d %s" % (owner[t], t, ",".join(tp) or "-"), kind="PUB", t=t)
             elif r < 0.62 and topics:
                 t = rng.choice(topics)
                 tp = [g.tpl(rng.choice(files)) if rng.random() < 0.8 else g.bad_tpl() for _ in range(rng.choice([1, 1, 2]))]
-                g.add("TAV 1 %d %s" % (t, ",".join(tp)), kind="TAV", t=t)
+                g.add("TAV %d %d %s" % (owner[t], t, ",".join(tp)), kind="TAV", t=t)
             elif r < 0.72 and alive_users:
                 u = rng.choice(alive_users)
                 tp = [g.tpl(rng.choice(files)) if rng.random() < 0.8 else g.bad_tpl() for _ in range(rng.choice([1, 1, 2]))]
                 g.add("UAV %d %s" % (u, ",".join(tp)), kind="UAV", u=u)
             elif r < 0.80 and topics:
                 t = rng.choice(topics)
-                g.add("DELMSG 1 %d %s" % (t, ",".join(str(rng.randrange(1, 400)) for _ in range(3))), kind="DELMSG", t=t)
+                g.add("DELMSG %d %d %s" % (owner[t], t, ",".join(str(rng.randrange(1, 400)) for _ in range(3))), kind="DELMSG", t=t)
             elif r < 0.84 and topics:
                 t = rng.choice(topics)
                 topics.remove(t)
-                g.add("DELTOPIC 1 %d" % t, kind="DELTOPIC", t=t)
+                g.add("DELTOPIC %d %d" % (owner[t], t), kind="DELTOPIC", t=t)
             elif r < 0.87 and len(alive_users) > 0 and rng.random() < 0.5:
                 u = alive_users.pop()
+                topics = [t for t in topics if owner[t] != u]          # deleted with their owner
                 g.add("DELUSER %d" % u, kind="DELUSER", u=u)
             elif r < 0.97:
                 g.add("GC %s %d" % (rng.choice(["future", "future", "future", "zero", "past"]), rng.choice([0, 0, 0, 1, 2, 100])), kind="GC")
@@ -464,9 +470,14 @@ def history_cases(g, count, length):
                 k = rng.choice(files)
                 g.sv(g.tpl(k, rng.choice(["F", "id", "dot", "dd", "slash", "ext", "q"])), kh="valid", cx="good1", target=k)
             g.add("DUMP")
+        for u in alive_users[1:]:
+            # the owner goes first: its topics, their messages and all their links go with it
+            topics = [t for t in topics if owner[t] != u]
+            g.add("DELUSER %d" % u, kind="DELUSER", u=u)
+            g.add("DUMP")
         for t in topics:
-            g.add("DELTOPIC 1 %d" % t, kind="DELTOPIC", t=t)
-        for u in alive_users:
+            g.add("DELTOPIC %d %d" % (owner[t], t), kind="DELTOPIC", t=t)
+        for u in alive_users[:1]:
             g.add("DELUSER %d" % u, kind="DELUSER", u=u)
         g.add("DUMP")
         g.add("GC zero 0")
@@ -624,10 +635,13 @@ def history_expectations(g, lines, answers):
     held = {}              # link text -> line index
     npub = 0
     pub_topic = {}
+    topic_owner = {}
     import re
     for i, (line, ans) in enumerate(zip(lines, answers)):
         w = line.split()
         cmp_, side = split(ans)
+        if w[0] == "TOPIC":
+            topic_owner[w[1]] = w[2]
         if w[0] == "DUMP":
             d = kvs(cmp_)
             files = dict(x.split(":") for x in d["files"].split(",")) if d["files"] != "-" else {}
@@ -682,8 +696,12 @@ def history_expectations(g, lines, answers):
                 if tg == "t" + w[2] or (tg[0] == "m" and pub_topic.get(int(tg[1:])) == w[2]):
                     del held[l]
         elif w[0] == "DELUSER":
-            for l in [l for l in held if l.endswith(">u" + w[1])]:
-                del held[l]
+            # the account, the topics it owns and the messages in them are gone
+            for l in list(held):
+                tg = l.split(">")[1]
+                if tg == "u" + w[1] or (tg[0] == "t" and topic_owner.get(tg[1:]) == w[1]) or \
+                        (tg[0] == "m" and topic_owner.get(pub_topic.get(int(tg[1:]))) == w[1]):
+                    del held[l]
     return fails
 
 
